@@ -9,7 +9,7 @@ CONSTANTS
   DeliberateDiff = {"oidArcLeading80", "highTagLeading80", "genTimeFraction", "setOfUnsorted"}
   Benign = {"rawInnerNonDER", "trailingInSequence"}
   AncestorDefects <- AllDefects
-  Wraps = {"struct", "seqof", "setof", "explicit", "optional"}
+  Wraps <- Wraps2
 INIT Init
 NEXT Next
 INVARIANTS TypeOK LaxSuperset LaxOnlyDocumented LaxPropagates AncestorDepth LaxIsLocal StrictEqUpstream DiffsAreDiffs
